@@ -85,9 +85,9 @@ CLAIMED["C08"] = ("Xorb",
     "5.3, 6 C08")
 
 CLAIMED["C17"] = ("Reconstruct",
-    "TLC model checking of Reconstruct.tla (reconstruction plans, sequential and parallel writers, term fetch with cache hit / download + cache fill + trim, download flights; negative controls for offset, remaining, file-offset, trim and URL-only flight keys); generated and random plans (terms, fetch coverings, byte ranges, both URL flavours) executed by a real RemoteClient against a loopback range server serving real serialized xorbs, sequential / parallel writer x no / cold / warm cache; hook and harness events validated against Trace_Reconstruct.tla",
-    "Exhaustive model checking of both writers over all files of <=3 terms on <=2 xorbs, all fetch coverings, all byte ranges and completion orders (output = expected slice, reported length = bytes written, writers and cache modes agree) plus conformance: for every executed plan the recorded per-term trims, file offsets, fetched ranges and the final output (projected to interned pieces of the pairwise distinct chunk data) must be the model's, for whole-file, single-byte, mid-term and random ranges, plans of up to hundreds of terms, one URL per fetch range and one URL per xorb shared by several ranges.",
-    "HTTP is a loopback std-only range server; chunk data pairwise distinct (interned); LZ4 / blake3 uninterpreted; completion orders of the parallel writer are whatever the runtime produces (the model covers all).",
+    "TLC model checking of Reconstruct.tla (server plan derivation, per-term cache hit / download through the singleflight + cache fill + trim + length check, sequential and parallel writer; negative controls offset_every_term, remaining_kept, fileoff_first, trim_rel_term, flight_url_only); every scenario of the small Gen_Reconstruct bound, samples of two larger bounds and random plans of up to 300 terms run end to end through RemoteClient::get_file against the harness's loopback HTTP server (reconstruction endpoint + blob store serving really serialized xorbs), both writers x no/cold/warm chunk cache x url-per-range/url-per-xorb; hook events of remote_client.rs and the output file projected to chunk-id pieces validated against Trace_Reconstruct.tla",
+    "Exhaustive model checking of both writers and the fetch path (all files of <= 2 terms over xorbs <<1,2,3>>,<<2>> and of <= 3 terms over <<1,2>>,<<3>>, every byte range and the whole-file call, every plan with ordered fetch-range lists, cache off/empty/warm, every interleaving of term fetches, cache fills and writes): output bytes = SubSeq(file bytes, s+1, e), reported length = its length, no failure; plus conformance: every recorded get_file call must be a behaviour of the spec step by step (the plan the server derived from the Range header it received, each term's hit or download with the fetch range, url_range, byte and chunk counts it returned, each writer step's start/end/file offset) and must end with an output file whose chunk-id pieces equal the expected slice and a returned length of e - s; sequential = parallel = cold = warm follows because all equal the same function of (file, range).",
+    "chunk contents pairwise distinct (checked on the trace); CAS server and blob store are the harness's HTTP server (plan re-checked by PlanOK); ranges within the file; cache never evicts; completion orders steered by response delays, enumerated only in the model.",
     "5.6, 6 C17")
 
 PENDING_REASON = "check not built yet in this round (planned in DESIGN.md section 6); no claim is made"
